@@ -187,7 +187,7 @@ var equSites = []equSite{
 
 var propC11 = &Prop[EquCase]{
 	ID:   "C11",
-	Rule: "1..5 EQU definitions forming chains up to depth 4 (literal bodies around the imm8/imm16/disp8 boundaries, bodies over earlier names with + - * / %, names from the adversarial identifier family) used in 1..6 statements at every kind of site (8/16/32-bit immediates, shift counts, INT, ports, memory-immediate, 16/32-bit displacements, absolute address, DB/DW/DD lists, RESB, PUSH), as a bare name or inside a larger expression; definitions at the top (in dependency order or permuted, so that bodies name constants defined further down) or just before first use; oracle: byte-identical output of the program with names and the program with every name replaced textually by its parenthesised definition, same acceptance, and the definitions alone emit nothing; non-trivial = a chain of depth >= 2 or a value on an encoding boundary; distinct by source text",
+	Rule: "1..5 EQU definitions forming chains up to depth 4 (literal bodies around the imm8/imm16/disp8 boundaries, bodies over earlier names with + - * / %, names from the adversarial identifier family) used in 1..6 statements at every kind of site (8/16/32-bit immediates, shift counts, INT, ports, memory-immediate, 16/32-bit displacements, absolute address, DB/DW/DD lists, RESB, PUSH), as a bare name or inside a larger expression; one case in four also defines a name that stands for a register and uses it as an operand and inside memory operands; definitions at the top (in dependency order or permuted, so that bodies name constants defined further down) or just before first use; oracle: byte-identical output of the program with names and the program with every name replaced textually by its parenthesised definition, same acceptance, and the definitions alone emit nothing; non-trivial = a chain of depth >= 2 or a value on an encoding boundary; distinct by source text",
 	Gen: func(t *rapid.T) EquCase {
 		c := EquCase{Mode: rapid.SampledFrom([]int{0, 16, 32}).Draw(t, "mode"), Late: rapid.Bool().Draw(t, "late")}
 		nd := rapid.IntRange(1, 5).Draw(t, "ndefs")
@@ -236,6 +236,30 @@ var propC11 = &Prop[EquCase]{
 			}
 			c.Defs = append(c.Defs, d)
 		}
+		// one case in four also defines a name that stands for a register and uses it where registers go
+		var regUses []string
+		if rapid.IntRange(0, 3).Draw(t, "regalias") == 0 {
+			nm := "qreg" + rapid.StringMatching(`[a-z0-9_]{0,4}`).Draw(t, "regnm")
+			if !taken[nm] {
+				type ra struct {
+					reg  string
+					uses []string
+				}
+				a := rapid.SampledFrom([]ra{
+					{"BX", []string{"MOV AX,[%s]", "MOV AX,[%s+2]", "MOV CL,[%s+SI]", "MOV [%s+DI+4],AX", "MOV AX,%s", "ADD %s,1", "MOV %s,CX", "PUSH %s", "ADD WORD [%s],7"}},
+					{"SI", []string{"MOV AL,[%s]", "MOV AX,[%s+0x100]", "MOV AX,[BX+%s]", "MOV %s,DI", "CMP %s,5", "POP %s"}},
+					{"BP", []string{"MOV AX,[%s]", "MOV AX,[%s+DI]", "MOV [%s-2],CX", "MOV %s,SP"}},
+					{"AL", []string{"MOV %s,5", "MOV [BX],%s", "ADD %s,CL", "IN %s,0x60"}},
+					{"ECX", []string{"MOV EAX,[EBX+%s*4]", "MOV EAX,[%s+8]", "MOV EAX,[%s]", "MOV %s,1", "MOV EDX,[%s*2+0x100]", "ADD %s,EAX", "SHL %s,3"}},
+					{"EBP", []string{"MOV EAX,[%s]", "MOV EAX,[%s+ESI*8]", "MOV [%s-4],EDX", "PUSH %s"}},
+					{"DS", []string{"MOV AX,%s", "MOV %s,AX", "PUSH %s"}},
+				}).Draw(t, "regaliasr")
+				c.Defs = append(c.Defs, EquDef{Name: nm, Body: a.reg, Dep: 1})
+				for k := rapid.IntRange(1, 3).Draw(t, "nreguses"); k > 0; k-- {
+					regUses = append(regUses, fmt.Sprintf(rapid.SampledFrom(a.uses).Draw(t, "reguse"), nm))
+				}
+			}
+		}
 		if !c.Late && len(c.Defs) >= 2 && rapid.IntRange(0, 2).Draw(t, "permute") == 0 {
 			idx := make([]int, len(c.Defs))
 			for i := range idx {
@@ -243,19 +267,30 @@ var propC11 = &Prop[EquCase]{
 			}
 			c.Perm = rapid.Permutation(idx).Draw(t, "perm")
 		}
+		var numeric []EquDef
+		for _, d := range c.Defs {
+			if sem.RegBits(d.Body) == 0 {
+				numeric = append(numeric, d)
+			}
+		}
 		// a table naming many constants in one statement
 		if rapid.IntRange(0, 3).Draw(t, "table") == 0 {
 			dir := rapid.SampledFrom([]string{"DB", "DW", "DD"}).Draw(t, "tdir")
 			var items []string
 			for k := rapid.IntRange(6, 14).Draw(t, "tn"); k > 0; k-- {
-				items = append(items, c.Defs[rapid.IntRange(0, len(c.Defs)-1).Draw(t, "titem")].Name)
+				items = append(items, numeric[rapid.IntRange(0, len(numeric)-1).Draw(t, "titem")].Name)
 			}
 			c.Stmts = append(c.Stmts, dir+" "+strings.Join(items, ","))
 			c.Sites = append(c.Sites, "table")
 		}
 		ns := rapid.IntRange(1, 6).Draw(t, "nstmts")
 		for i := 0; i < ns; i++ {
-			d := c.Defs[rapid.IntRange(0, len(c.Defs)-1).Draw(t, "use")]
+			if len(regUses) > 0 && rapid.IntRange(0, 2).Draw(t, "placereguse") == 0 {
+				c.Stmts = append(c.Stmts, regUses[0])
+				c.Sites = append(c.Sites, "regalias")
+				regUses = regUses[1:]
+			}
+			d := numeric[rapid.IntRange(0, len(numeric)-1).Draw(t, "use")]
 			expr, val := d.Name, d.Val
 			switch rapid.IntRange(0, 5).Draw(t, "wrap") {
 			case 0:
@@ -265,7 +300,7 @@ var propC11 = &Prop[EquCase]{
 				k := rapid.Int64Range(2, 4).Draw(t, "wk")
 				expr, val = fmt.Sprintf("%d*%s", k, d.Name), k*d.Val
 			case 2:
-				e := c.Defs[rapid.IntRange(0, len(c.Defs)-1).Draw(t, "use2")]
+				e := numeric[rapid.IntRange(0, len(numeric)-1).Draw(t, "use2")]
 				expr, val = fmt.Sprintf("%s-%s", d.Name, e.Name), d.Val-e.Val
 			}
 			// choose a site whose range admits the value (construction, not rejection)
@@ -278,6 +313,10 @@ var propC11 = &Prop[EquCase]{
 			s := ok[rapid.IntRange(0, len(ok)-1).Draw(t, "site")]
 			c.Stmts = append(c.Stmts, fmt.Sprintf(s.tmpl, expr))
 			c.Sites = append(c.Sites, s.cls)
+		}
+		for _, u := range regUses {
+			c.Stmts = append(c.Stmts, u)
+			c.Sites = append(c.Sites, "regalias")
 		}
 		return c
 	},
